@@ -28,6 +28,7 @@ func init() {
 			{"C20-R3", "loopback flag is monotone", c20r3},
 			{"C20-R4", "a negated include filter is one rule over the whole list", c20r4},
 			{"C20-R5", "the idempotency check probes every generated rule", c20r5},
+			{"C20-R6", "every CIDR is filed by its own family", c20r6},
 		},
 	})
 }
@@ -565,4 +566,61 @@ func c20r5(c *Ctx) {
 	}
 	c.Check("CheckRules walks the generated rules", fn.Pos(), n >= 1, "no loop over the rules found in CheckRules or the helper it delegates to")
 	c.Floor(2)
+}
+
+// C20-R6: every CIDR is filed by its own family. SeparateV4V6 splits a mixed list into the IPv4 and the IPv6 range; the
+// rules for one family are generated from one range only, so a prefix filed under the wrong family disappears from its own
+// family's rules. In the loop over the list, the range a prefix is recorded in is chosen in that pass from that prefix's own
+// family test: no variable of range / pointer-to-range type is carried from one pass of the loop to the next (a phi of the
+// loop header), and every store into a range's CIDRs lies under an edge of an Is4 / Is6 test made in the same pass.
+func c20r6(c *Ctx) {
+	p := c.P
+	fn := p.Func("tools/common/config", "", "SeparateV4V6")
+	nrT := p.Struct("tools/common/config", "NetworkRange")
+	cidrs := p.Field("tools/common/config", "NetworkRange", "CIDRs")
+	headers := map[*ssa.BasicBlock]bool{}
+	for _, b := range fn.Blocks {
+		for _, pr := range b.Preds {
+			if b.Dominates(pr) {
+				headers[b] = true
+			}
+		}
+	}
+	c.Check("SeparateV4V6 walks the list in a loop", fn.Pos(), len(headers) >= 1, "no loop found in SeparateV4V6")
+	n := 0
+	for h := range headers {
+		for _, ins := range h.Instrs {
+			phi, ok := ins.(*ssa.Phi)
+			if !ok {
+				continue
+			}
+			t := phi.Type()
+			if pt, ok := t.(*types.Pointer); ok {
+				t = pt.Elem()
+			}
+			isRange := structOf(types.NewPointer(t)) == nrT && nrT != nil
+			c.Check("no range selector is carried from one list entry to the next: "+phi.Comment, phi.Pos(), !isRange,
+				"a variable of (pointer to) NetworkRange type is carried around the loop over the CIDR list: the range an entry is filed in then depends on the entries before it - an IPv4 prefix listed after an IPv6 prefix is recorded as IPv6, vanishes from the IPv4 rules (an excluded range is redirected, an included one is not) and shows up in the ip6tables rules instead")
+			n++
+		}
+	}
+	// the family test guards each filing
+	var fam []Edge
+	for _, i := range allIfs(fn) {
+		v, _ := stripNot(i.Cond)
+		if call, ok := v.(*ssa.Call); ok {
+			if o := calleeObj(call); o != nil && (o.Name() == "Is4" || o.Name() == "Is6" || o.Name() == "Is4In6") {
+				fam = append(fam, Edge{i.Block(), 0}, Edge{i.Block(), 1})
+			}
+		}
+	}
+	m := 0
+	for _, st := range storesTo(fn, cidrs) {
+		m++
+		c.Check("a prefix is filed under an edge of its family test", st.Pos(), underEdges(fn, st.Block(), fam),
+			"a store into NetworkRange.CIDRs in SeparateV4V6 is not under an edge of an Is4 / Is6 test: the family of the prefix does not decide which range it is recorded in")
+	}
+	c.Check("SeparateV4V6 files prefixes into the ranges", fn.Pos(), m >= 1, "no store into NetworkRange.CIDRs")
+	_ = n
+	c.Floor(3)
 }
